@@ -150,7 +150,7 @@ def generate(seed: int, run: int, tier: str) -> dict:
             if rng.random() < p_clear:
                 ops.append({"op": "clear_cache"})
             mode = rng.choice(["auto", "auto", "uneval_doit", "ctx_uneval_doit"])
-            evict = sorted(rng.sample(range(1, 60), rng.choice([1, 2, 3]))) if rng.random() < p_evict else []
+            evict = sorted(rng.sample(range(1, rng.choice([30, 120, 400])), rng.choice([1, 2, 3, 6]))) if rng.random() < p_evict else []
             if rng.random() < p_diff and _size(ast) <= 16:
                 var = "t" if has_t and rng.random() < 0.85 else ("s%d" % rng.randrange(ns) if ns else "t")
                 ops.append({"op": "diff", "ast": ast, "var": var, "order": rng.choice([1, 1, 1, 2]) if _size(ast) <= 9 else 1, "via": rng.choice(["diff", "vector_diff"]), "evict": evict})
@@ -173,6 +173,18 @@ def zygote_init() -> None:
     vm.id = ids.virtual_id  # the seam: module globals shadow builtins
     _STATE["ids"] = ids
     _STATE["vm"] = vm
+    # further cooperative fault points: module-global helpers the constructors call by name
+    for name in ("split_factor", "into_terms", "is_atomic_vector", "_check_vector", "sort_with_sign"):
+        orig = getattr(vm, name)
+
+        def make(orig):
+            def fault_point(*a, **k):
+                ids.tick()
+                return orig(*a, **k)
+            fault_point.__wrapped__ = orig
+            return fault_point
+
+        setattr(vm, name, make(orig))
     # reach probes: line events on the rewrite-rule functions (sys.monitoring, Python 3.12)
     mon = sys.monitoring
     tool = 4
@@ -231,7 +243,10 @@ class VirtualIds:
         self.op_calls = 0
         self.evict_at = set(evict_at or ())
 
-    def virtual_id(self, obj) -> int:
+    def tick(self) -> None:
+        """One logical step: every call through a seam (`id`, `split_factor`, `into_terms`,
+        `is_atomic_vector`, `_check_vector`, `sort_with_sign`) is a cooperative fault point
+        where the schedule may evict SymPy's cache, and counts against the step budget."""
         self.calls += 1
         self.op_calls += 1
         if self.op_calls > OP_ID_BUDGET:
@@ -240,6 +255,9 @@ class VirtualIds:
             from sympy.core.cache import clear_cache  # pylint: disable=import-outside-toplevel
             clear_cache()
             self.evicted += 1
+
+    def virtual_id(self, obj) -> int:
+        self.tick()
         rid = id(obj)
         v = self.table.get(rid)
         if v is None:
@@ -823,7 +841,7 @@ def child_run(job: dict) -> dict:
             except OpTimeout:
                 err = ("wall", "")
             except StepBudget:
-                err = ("nontermination", f"more than {OP_ID_BUDGET} identity comparisons in one operation")
+                err = ("nontermination", f"more than {OP_ID_BUDGET} logical steps (seam calls) in one operation")
             except RecursionError:
                 err = ("nontermination", "RecursionError; cycle: " + _tb_cycle())
             except Exception as e:  # pylint: disable=broad-except
